@@ -1,5 +1,166 @@
-import BstreamVerif.Model.Joining
+import BstreamVerif.Props.C13
+import BstreamVerif.Props.C09
+/-!
+# C07 — file-to-live handoff is seamless: exactly-once, in order, no dropped undo
+
+The simulation `Joining.runStream` delivers file-side events (merged files through the cursor resolver) until the
+hub can serve the block the file side is about to deliver, then the hub's burst and the live events. Theorems, for
+every store, hub, schedule of hub pushes and configuration: the block at which the handoff happens is delivered
+exactly once (the file event is dropped and the burst starts with that very block number); after the handoff no
+file event is delivered; deliveries are never retracted or reordered; an Undo or Irreversible event coming out of the
+cursor resolver never triggers the handoff, so it is always delivered (the dropped-undo defect fixed by f47de1c).
+That the two sides are views of one chain ("provided files and hub together cover the chain") is an assumption
+about the inputs that the theorems do not need; the consumer-level statement (discipline from the consumer state
+implied by the start point) is decided by the stream monitors over the correspondence suite.
+-/
 namespace BstreamVerif.Props.C07
-open BstreamVerif BstreamVerif.Joining
+open BstreamVerif BstreamVerif.Joining BstreamVerif.HubBurst BstreamVerif.Forkable
+
+theorem dropWhile_head_false {α} (p : α → Bool) (l : List α) (a : α) (t : List α) (h : l.dropWhile p = a :: t) :
+    p a = false := by
+  induction l with
+  | nil => simp at h
+  | cons x r ih =>
+    by_cases hx : p x = true
+    · rw [List.dropWhile_cons_of_pos hx] at h; exact ih h
+    · rw [List.dropWhile_cons_of_neg hx] at h
+      injection h with h1 _
+      rw [← h1]; simpa using hx
+
+/-- **the handoff block is delivered exactly once**: the hub's answer to a request by number starts with a block of
+    exactly that number (the file event for it is the one that is dropped) -/
+theorem burst_starts_at_requested_block (s : FState) (n : Nat) (e : Event) (rest : List Event)
+    (h : blocksFromNum s n = some (e :: rest)) : e.blk.num = n := by
+  unfold blocksFromNum at h
+  cases hs : headSegment s with
+  | none => rw [hs] at h; cases h
+  | some p =>
+    obtain ⟨hd, seg⟩ := p
+    rw [hs] at h
+    simp only at h
+    rw [Props.C09.go_unseen] at h
+    cases hd' : seg.dropWhile (fun e => e.blk.num != n) with
+    | nil => rw [hd'] at h; simp at h
+    | cons a t =>
+      rw [hd'] at h
+      simp only [List.map_cons] at h
+      injection h with h
+      injection h with h1 _
+      have := dropWhile_head_false _ _ _ _ hd'
+      rw [← h1]
+      simpa [wrap] using this
+
+/-- the handoff in `step1`: the file event is not delivered, the burst replaces the file side -/
+theorem handoff_replaces_file_side (cfg : SCfg) (m : Sim) (e : Event) (rest : List Event) (b : List Event)
+    (hj : m.joined = false) (hq : m.fileQ = e :: rest) (hlow : (decide (e.blk.num ≥ m.lowest) && joinable e) = true)
+    (hnt : cfg.cursorIsTarget = false) (hb : blocksFromNum m.hub e.blk.num = some b) :
+    (step1 cfg m).joined = true ∧ (step1 cfg m).liveQ = b ∧ (step1 cfg m).fileQ = [] ∧
+    (step1 cfg m).delivered = m.delivered := by
+  have hs : step1 cfg m = { m with joined := true, liveQ := b, fileQ := [] } := by
+    unfold step1
+    simp only [hj, Bool.false_eq_true, if_false, hq, hlow, if_true, hnt, hb]
+  rw [hs]
+  exact ⟨rfl, rfl, rfl, rfl⟩
+
+/-- **no dropped undo**: an event that is not a new block (an Undo or an Irreversible announcement produced by the
+    cursor resolver) never triggers the handoff: it goes to the handler chain -/
+theorem non_new_event_is_delivered (cfg : SCfg) (m : Sim) (e : Event) (rest : List Event)
+    (hj : m.joined = false) (hq : m.fileQ = e :: rest) (hne : joinable e = false) :
+    step1 cfg m = Sim.deliver cfg { m with fileQ := rest } e := by
+  unfold step1
+  simp only [hj, Bool.false_eq_true, if_false, hq, hne, Bool.and_false]
+
+theorem undo_is_not_joinable (e : Event) (h : e.step = .undo ∨ e.step = .irreversible) : joinable e = false := by
+  unfold joinable
+  rcases h with h | h <;> rw [h] <;> decide
+
+/-! ### deliveries are never retracted or reordered; after the handoff the file side is silent -/
+
+theorem foldl_push_fields (l : List Push) (x : Sim) :
+    (l.foldl (fun m p => m.push p.blk) x).joined = x.joined ∧ (l.foldl (fun m p => m.push p.blk) x).fileQ = x.fileQ := by
+  induction l generalizing x with
+  | nil => exact ⟨rfl, rfl⟩
+  | cons p t ih =>
+    simp only [List.foldl_cons]
+    have := ih (x.push p.blk)
+    have hp : (x.push p.blk).joined = x.joined ∧ (x.push p.blk).fileQ = x.fileQ := by unfold Sim.push; exact ⟨rfl, rfl⟩
+    exact ⟨this.1.trans hp.1, this.2.trans hp.2⟩
+
+theorem applyPushes_fields (m : Sim) (w : When) :
+    (m.applyPushes w).joined = m.joined ∧ (m.applyPushes w).fileQ = m.fileQ := by
+  unfold Sim.applyPushes
+  exact foldl_push_fields _ _
+
+theorem deliver_prefix (cfg : SCfg) (m : Sim) (e : Event) (d : List Event) (hd : m.delivered = d) :
+    d <+: (Sim.deliver cfg m e).delivered ∧ (Sim.deliver cfg m e).joined = m.joined ∧
+    (Sim.deliver cfg m e).fileQ = m.fileQ := by
+  subst hd
+  unfold Sim.deliver
+  split
+  · exact ⟨List.prefix_refl _, rfl, rfl⟩
+  · split
+    · exact ⟨List.prefix_refl _, rfl, rfl⟩
+    · have ha := applyPushes_fields { m with delivered := m.delivered ++ [e], count := m.count + 1 } (.afterDelivery m.count)
+      have hd := (Props.C13.applyPushes_out { m with delivered := m.delivered ++ [e], count := m.count + 1 } (.afterDelivery m.count)).1
+      split
+      · exact ⟨by simp only; rw [hd]; exact List.prefix_append _ _, ha.1, ha.2⟩
+      · exact ⟨by rw [hd]; exact List.prefix_append _ _, ha.1, ha.2⟩
+
+/-- once on the live side the file side stays empty: no file event is ever delivered after the handoff -/
+def LiveClean (m : Sim) : Prop := m.joined = true → m.fileQ = []
+
+theorem step1_prefix (cfg : SCfg) (m : Sim) (hc : LiveClean m) :
+    m.delivered <+: (step1 cfg m).delivered ∧ LiveClean (step1 cfg m) := by
+  unfold step1
+  by_cases hj : m.joined = true
+  · rw [if_pos hj]
+    cases hq : m.liveQ with
+    | cons e rest =>
+      simp only
+      have := deliver_prefix cfg { m with liveQ := rest } e m.delivered rfl
+      exact ⟨this.1, fun _ => by rw [this.2.2]; exact hc hj⟩
+    | nil =>
+      simp only
+      cases hp : m.pushes with
+      | cons p rest =>
+        simp only
+        exact ⟨by rw [(Props.C13.push_out _ _).1]; exact List.prefix_refl _, fun _ => by unfold Sim.push; exact hc hj⟩
+      | nil => exact ⟨List.prefix_refl _, fun _ => hc hj⟩
+  · rw [if_neg hj]
+    cases hq : m.fileQ with
+    | nil =>
+      simp only
+      cases m.fileEnd with
+      | some e => exact ⟨List.prefix_refl _, fun h => absurd h hj⟩
+      | none => exact ⟨List.prefix_refl _, fun h => absurd h hj⟩
+    | cons e rest =>
+      simp only
+      by_cases hlow : (decide (e.blk.num ≥ m.lowest) && joinable e) = true
+      · rw [if_pos hlow]
+        generalize (if cfg.cursorIsTarget = true then
+            (match cfg.cursor with | some c => hubThroughCursor m.hub e.blk.num c | none => none)
+          else blocksFromNum m.hub e.blk.num) = burst
+        cases burst with
+        | some b => exact ⟨List.prefix_refl _, fun _ => rfl⟩
+        | none =>
+          simp only
+          have := deliver_prefix cfg { m with fileQ := rest, lowest := if m.ready then hubLowest m.hub else 0 } e m.delivered rfl
+          exact ⟨this.1, fun h => by rw [this.2.1] at h; exact absurd h hj⟩
+      · rw [if_neg hlow]
+        have := deliver_prefix cfg { m with fileQ := rest } e m.delivered rfl
+        exact ⟨this.1, fun h => by rw [this.2.1] at h; exact absurd h hj⟩
+
+/-- **deliveries are never retracted or reordered** along the whole run -/
+theorem simLoop_prefix (cfg : SCfg) (fuel : Nat) (m : Sim) (hc : LiveClean m) :
+    m.delivered <+: (simLoop cfg fuel m).delivered ∧ LiveClean (simLoop cfg fuel m) := by
+  induction fuel generalizing m with
+  | zero => exact ⟨List.prefix_refl _, hc⟩
+  | succ n ih =>
+    unfold simLoop
+    split
+    · exact ⟨List.prefix_refl _, hc⟩
+    · obtain ⟨h1, h2⟩ := step1_prefix cfg m hc
+      obtain ⟨h3, h4⟩ := ih (step1 cfg m) h2
+      exact ⟨List.IsPrefix.trans h1 h3, h4⟩
 
 end BstreamVerif.Props.C07
